@@ -135,12 +135,7 @@ def _binding(b, D, local, depth=0):
     return None
 
 
-def query_set_pairing_mir(ctx, b):
-    """on MIR: the value inserted under the key (label, point) is computed from the item components the key's two
-    parts are copies of."""
-    from ..flow import Graph, DATA, ALIAS
-    f = ctx.facts
-    g = Graph(f, f.closure([b.id], None), [b.id], None)
+def _defs(b):
     D = {}
     for blk in b.blocks:
         if blk["cleanup"]:
@@ -151,35 +146,62 @@ def query_set_pairing_mir(ctx, b):
         t = blk["term"]
         if t["k"] == "call" and not t["dst"]["p"]:
             D.setdefault(t["dst"]["l"], []).append(("call", t))
+    return D
+
+
+def _through_moves(D, l):
+    for _ in range(6):      # a value may be moved through temporaries before it is used
+        ds = D.get(l, [])
+        if len(ds) == 1 and ds[0][0] == "st" and ds[0][1]["rv"]["k"] == "use" and ds[0][1]["rv"]["ops"][0]["k"] in ("copy", "move") \
+                and not ds[0][1]["rv"]["ops"][0]["pl"]["p"]:
+            l = ds[0][1]["rv"]["ops"][0]["pl"]["l"]
+        else:
+            break
+    return l
+
+
+def query_set_pairing_mir(ctx, b):
+    """on MIR: wherever a value is paired with a key (label, point) - the arguments of a map `insert`, or a
+    `((label, point), value)` tuple that is collected into the map - the value is computed from the components of
+    the query the key's two parts are copies of."""
+    from ..flow import Graph, DATA, ALIAS
+    f = ctx.facts
+    scope = f.closure([b.id], None)
+    g = Graph(f, scope, [b.id], None)
     found = 0
-    for i, t in b.calls():
-        nm = (t.get("callee") or "").rsplit("::", 1)[-1]
-        if nm != "insert" or len(t["args"]) != 3 or any(a["k"] not in ("copy", "move") for a in t["args"]):
-            continue
-        kl = t["args"][1]["pl"]["l"]
-        for _ in range(6):      # the key may be moved through temporaries before it is handed over
-            ds = D.get(kl, [])
-            if len(ds) == 1 and ds[0][0] == "st" and ds[0][1]["rv"]["k"] == "use" and ds[0][1]["rv"]["ops"][0]["k"] in ("copy", "move") \
-                    and not ds[0][1]["rv"]["ops"][0]["pl"]["p"]:
-                kl = ds[0][1]["rv"]["ops"][0]["pl"]["l"]
-            else:
-                break
-        kd = g._tuple_def(b, kl)
-        if kd is None or len(kd) != 2 or any(o["k"] not in ("copy", "move") for o in kd):
-            continue          # not a (label, point) key: another table
-        found += 1
-        b0 = _binding(b, D, kd[0]["pl"]["l"])
-        b1 = _binding(b, D, kd[1]["pl"]["l"])
-        if b0 is None or b1 is None or b0[1] == b1[1]:
-            return False, "the key of the stored evaluation at %s is not (one component of the query, another component of it)" % t["span"]
-        v = (b.id, t["args"][2]["pl"]["l"])
-        for which, bn in (("label", b0), ("point", b1)):
-            reached = {s[0] for s in g.reach([(b.id, bn[0])], kinds=(DATA, ALIAS), typed=False)}
-            if v not in reached:
-                return False, ("the value stored at %s does not depend on the %s component of its own key: it is not the "
-                               "evaluation of the polynomial with that label at that point" % (t["span"], which))
+    for bid in sorted(scope):
+        bb = f.bodies[bid]
+        D = _defs(bb)
+        pairs = []      # (key local, value local, where)
+        for i, t in bb.calls():
+            nm = (t.get("callee") or "").rsplit("::", 1)[-1]
+            if nm == "insert" and len(t["args"]) == 3 and all(a["k"] in ("copy", "move") for a in t["args"]):
+                pairs.append((t["args"][1]["pl"]["l"], t["args"][2]["pl"]["l"], t["span"]))
+        for blk in bb.blocks:
+            for st in blk["stmts"]:
+                rv = st["rv"]
+                if rv.get("k") == "agg" and rv.get("ak") == "tuple" and len(rv.get("ops", [])) == 2 and \
+                        all(o["k"] in ("copy", "move") and not o["pl"]["p"] for o in rv["ops"]):
+                    pairs.append((rv["ops"][0]["pl"]["l"], rv["ops"][1]["pl"]["l"], "%s:%s" % (bb.file(), st.get("line"))))
+        for (kl, vl, where) in pairs:
+            kd = g._tuple_def(bb, _through_moves(D, kl))
+            if kd is None or len(kd) != 2 or any(o["k"] not in ("copy", "move") for o in kd):
+                continue          # not a (label, point) key: another table / another tuple
+            b0 = _binding(bb, D, kd[0]["pl"]["l"])
+            b1 = _binding(bb, D, kd[1]["pl"]["l"])
+            if b0 is None and b1 is None:
+                continue
+            found += 1
+            if b0 is None or b1 is None or b0[1] == b1[1]:
+                return False, "the key of the stored evaluation at %s is not (one component of the query, another component of it)" % where
+            v = (bid, vl)
+            for which, bn in (("label", b0), ("point", b1)):
+                reached = {s[0] for s in g.reach([(bid, bn[0])], kinds=(DATA, ALIAS), typed=False)}
+                if v not in reached:
+                    return False, ("the value stored at %s does not depend on the %s component of its own key: it is not the "
+                                   "evaluation of the polynomial with that label at that point" % (where, which))
     if not found:
-        return False, "no insert under a (label, point) key found in evaluate_query_set"
+        return False, "no value paired with a (label, point) key found in evaluate_query_set"
     return True, "the value stored under (label, point) is computed from exactly those two components of the query"
 
 
